@@ -104,7 +104,7 @@ def setval(v,st):
 
 class SymColl:
   SETM={'add','discard','remove','update','__ior__','__isub__','__iand__','copy','__len__','__contains__','clear'}
-  DICTM={'items','keys','values','update','get','pop','__len__','__contains__','copy','setdefault'}
+  DICTM={'items','keys','values','update','get','pop','__len__','__contains__','copy','setdefault','append'}
   def handles(s,o,st): return isinstance(o,Ref) and o.cls in('set','dict') and ((o.id,'arr') in st.heap or (o.id,'dom') in st.heap)
   def has_method(s,m): return m in s.SETM or m in s.DICTM
   def contains(s,ex,o,x,st,negate):
@@ -173,6 +173,12 @@ class SymColl:
       st2.pc.append(z3.ForAll([k],nv[k]==z3.If(z3.Select(dom2,k),val2[k],val[k])))
       st2.heap[(o.id,'dom')]=z3.SetUnion(dom,dom2); st2.heap[(o.id,'val')]=nv; yield st2,NONE
     elif m=='__contains__': yield st,B(z3.Select(dom,to_obj(args[0],st)))
+    elif m=='append' and (o.id,'keyexpr') in st.heap:
+      # keyed list of sets: nets.append(net) stores the current value of `net` under the key expression
+      import ast as _ast
+      kv=list(ex.ev(_ast.parse(st.heap[(o.id,'keyexpr')],mode='eval').body,st))[0][1]; k=to_obj(kv,st)
+      st.vcs.append(('setlist-nodup',f"append@{ex.cur_line}",list(st.pc),z3.Not(z3.Select(dom,k)),st))
+      st2=st.fork(); st2.heap[(o.id,'dom')]=z3.Store(dom,k,True); st2.heap[(o.id,'val')]=z3.Store(val,k,setval(args[0],st)[0]); yield st2,NONE
     elif m=='copy':
       r=st.alloc('dict',{'dom':dom,'val':val,'vt':vt,'key':kt,'default':st.heap[(o.id,'default')]}); yield st,r
     elif m=='get':
@@ -236,8 +242,17 @@ def _for_loop(ex,node,d,mode,spec,st):
     if mode=='slot': return slot_arr(d,st)
     return st.heap[(d.id,'dom')]
   dom0=domain(st)             # iteration is over the collection as it is at loop entry (mutating it during iteration is unsupported)
+  prev=st.env.get('seen'); prev_outer=st.env.get('seen_outer')
   def with_seen(st,seen):
-    st2=st.fork(); st2.env['seen']=SetV(seen,None); return st2
+    st2=st.fork(); st2.env['seen']=SetV(seen,None)
+    if prev is not None: st2.env['seen_outer']=prev       # the ghost set of the enclosing for-loop stays addressable
+    return st2
+  def restore(st):
+    st2=st.fork()
+    for k,v in (('seen',prev),('seen_outer',prev_outer)):
+      if v is None: st2.env.pop(k,None)
+      else: st2.env[k]=v
+    return st2
   # inv-init with seen = {}
   ex.inv_vc('inv-init',node,spec,with_seen(st,EMPTY),None)
   st1=st.fork()
@@ -267,10 +282,10 @@ def _for_loop(ex,node,d,mode,spec,st):
       for sc,c in ex.block(node.body,sb):
         if c is None or c[0]=='continue':
           ex.inv_vc('inv-step',node,spec,with_seen(sc,z3.Store(seen,e,True)),None)
-        elif c[0]=='break': yield sc,None
+        elif c[0]=='break': yield restore(sc),None
         else: yield sc,c
   # (b) exit: everything seen
-  sx=st1.fork(seen==dom0)
+  sx=restore(st1.fork(seen==dom0))
   if node.orelse: yield from ex.block(node.orelse,sx)
   else: yield sx,None
 
@@ -280,6 +295,9 @@ def havoc_loc(ex,loc,st):
   for p in parts[1:]: cur=st.heap[(cur.id,p)]
   if isinstance(cur,Ref) and cur.cls in('set','setlist'):
     st.heap[(cur.id,'arr')]=z3.Const(f"{loc}@loop!{st.nextid[0]}",SetSort); st.nextid[0]+=1
+    if st.heap.get((cur.id,'bag')):
+      mu=z3.Const(f"{loc}.multi@loop!{st.nextid[0]}",SetSort); st.nextid[0]+=1
+      st.heap[(cur.id,'multi')]=mu; st.pc.append(z3.IsSubset(mu,st.heap[(cur.id,'arr')]))
   elif isinstance(cur,Ref) and cur.cls=='dict':
     st.heap[(cur.id,'dom')]=z3.Const(f"{loc}.dom@loop!{st.nextid[0]}",SetSort)
     st.heap[(cur.id,'val')]=z3.Const(f"{loc}.val@loop!{st.nextid[0]}",st.heap[(cur.id,'val')].sort()); st.nextid[0]+=1
@@ -412,10 +430,11 @@ SPEC_FORMS['forall_int']=_form_forall_int
 
 # ================================================================================== extensions for scheduler code (Kahn loops)
 CARD=z3.Function('card',SetSort,z3.IntSort())
+WIT=z3.Function('witness',SetSort,Obj)       # some member of a non-empty finite set
 
 def card_facts(S):
   """ground facts about the cardinality of a finite set term S (Python sets are finite)."""
-  return [CARD(S)>=0,(CARD(S)==0)==(S==EMPTY)]
+  return [CARD(S)>=0,(CARD(S)==0)==(S==EMPTY),z3.Implies(CARD(S)>=1,z3.Select(S,WIT(S))),z3.Implies(CARD(S)==1,S==z3.Store(EMPTY,WIT(S),True))]
 def card_add(S,x):
   S2=z3.Store(S,x,True)
   return [z3.If(z3.Select(S,x),CARD(S2)==CARD(S),CARD(S2)==CARD(S)+1)]+card_facts(S2)
@@ -440,8 +459,12 @@ class SetList:
   def setitem(s,ex,o,idx,v,st): raise Unsupported("item store on a list that is abstracted by its element set")
   def call(s,ex,o,m,args,kw,st):
     arr=st.heap[(o.id,'arr')]
+    bag=st.heap.get((o.id,'bag'),False)
     if m=='append':
       x=to_obj(args[0],st)
+      if bag:           # duplicates allowed: the abstraction records which elements occur ('arr') and which may occur more than once ('multi')
+        mu=st.heap.get((o.id,'multi'),EMPTY)
+        st2=st.fork(); st2.heap[(o.id,'arr')]=z3.Store(arr,x,True); st2.heap[(o.id,'multi')]=z3.If(z3.Select(arr,x),z3.Store(mu,x,True),mu); yield st2,NONE; return
       st.vcs.append(('setlist-nodup',f"append@{ex.cur_line}",list(st.pc),z3.Not(z3.Select(arr,x)),st))
       st2=st.fork(); st2.heap[(o.id,'arr')]=z3.Store(arr,x,True)
       for f in card_add(arr,x): st2.pc.append(f)
@@ -451,9 +474,16 @@ class SetList:
       for st1,empty in ex.branch(st,arr==EMPTY):
         if empty: yield st1,Exc('IndexError','pop from empty list'); continue
         e=z3.Const(f"popped!{st1.nextid[0]}",Obj); st1.nextid[0]+=1
+        if bag:         # the popped element may or may not occur again in the rest of the list
+          mu=st1.heap.get((o.id,'multi'),EMPTY)
+          again=z3.Const(f"again!{st1.nextid[0]}",z3.BoolSort()); still=z3.Const(f"still!{st1.nextid[0]}",z3.BoolSort()); st1.nextid[0]+=1
+          st2=st1.fork(z3.And(z3.Select(arr,e),z3.Implies(again,z3.Select(mu,e)),z3.Implies(still,again)))
+          st2.heap[(o.id,'arr')]=z3.If(again,arr,z3.Store(arr,e,False)); st2.heap[(o.id,'multi')]=z3.If(still,mu,z3.Store(mu,e,False))
+          yield st2,from_obj(e,st2.heap.get((o.id,'elem')),st2); continue
         st2=st1.fork(z3.Select(arr,e)); st2.heap[(o.id,'arr')]=z3.Store(arr,e,False)
         for f in card_del(arr,e): st2.pc.append(f)
         yield st2,from_obj(e,st2.heap.get((o.id,'elem')),st2)
+    elif m=='__len__' and bag: raise Unsupported("len() of a list abstracted as a bag")
     elif m=='__len__':
       st2=st.fork()
       for f in card_facts(arr): st2.pc.append(f)
@@ -472,5 +502,7 @@ def _sf_elems(s,args,st):
   o=args[0]
   if isinstance(o,Ref) and o.cls=='setlist': return SetV(st.heap[(o.id,'arr')],st.heap.get((o.id,'elem')))
   return SetV(setval(o,st)[0],None)
-SPEC_FUNS.update({'card':_sf_card,'elems':_sf_elems})
+def _sf_dups(s,args,st):
+  o=args[0]; return SetV(st.heap.get((o.id,'multi'),EMPTY),st.heap.get((o.id,'elem')))
+SPEC_FUNS.update({'card':_sf_card,'elems':_sf_elems,'dups':_sf_dups})
 _rt.NATIVE.update(card=lambda s: len(set(s)), elems=lambda l: set(l))
